@@ -401,10 +401,30 @@ def gen_reduce(rng: Rng) -> tuple[GB, dict]:
     return gb, desc
 
 
+def _gen_reshape_foreign(rng: Rng) -> tuple[GB, dict]:
+    """flatten → chain → Reshape to the run-time shape of ANOTHER input: (B, X) and (B, Y) agree on
+    the symbol B and are 'one extent apart', but with an empty batch X and Y need not be equal."""
+    gb = GB()
+    lead = rng.choice(["B", "B", 3, 0])
+    x = gb.inp([lead, "X"])
+    y = gb.inp([lead, "Y"])
+    desc: dict[str, Any] = {"family": "reshape_pair", "sym": "foreign", "lead": lead, "guards": ["target_from_other_input"],
+                            "chain": []}
+    cur = gb.node("Reshape", [x, gb.const(np.asarray([-1], dtype=np.int64))])
+    for _ in range(rng.choice([0, 1, 2])):
+        op = rng.choice(["Relu", "Tanh", "Neg", "Abs"])
+        cur = gb.node(op, [cur])
+        desc["chain"].append(op)
+    gb.out(gb.node("Reshape", [cur, gb.node("Shape", [y])]))
+    return gb, desc
+
+
 def gen_reshape(rng: Rng) -> tuple[GB, dict]:
     a, b, c = rng.sample([2, 3, 4, 5, 6], 3)
     gb = GB()
-    sym = rng.choice(["none", "none", "one", "two_same", "two_diff"])
+    sym = rng.choice(["none", "none", "one", "two_same", "two_diff", "foreign"])
+    if sym == "foreign":
+        return _gen_reshape_foreign(rng)
     if sym == "none":
         in_shape: list[Any] = [a, b, c]
     elif sym == "one":
